@@ -267,7 +267,7 @@ class NativeVC:
         self._cleanups.append(lambda: [setattr(asyncio, n, v) for n, v in zip(("get_event_loop", "get_running_loop", "create_task", "Event"), saved)])
         return loop
 
-    def drive(self, coro, log, on_sleep=None, cancellable=False):
+    def drive(self, coro, log, on_sleep=None, cancellable=False, on_cancel=None):
         """native twin of vc.drive: steps the real coroutine; asyncio.sleep / gather are
         replaced by awaitables that hand control to this driver"""
         import asyncio
@@ -310,6 +310,8 @@ class NativeVC:
                     raise ReplayInvalid(f"coroutine awaited something the driver does not model: {req!r}")
                 if k == cancel_at:
                     log.append(("cancel",))
+                    if on_cancel is not None:
+                        on_cancel()
                     pending_exc = asyncio.CancelledError()
                 else:
                     log.append(("sleep", req.d))
@@ -469,9 +471,15 @@ def run(modname, fname, model):
 
 
 def main(argv):
-    modname, fname, path = argv[1:4]
-    with open(path) as f:
-        rec = json.load(f)
+    if len(argv) >= 3 and argv[1] == "--file":
+        path = argv[2]
+        with open(path) as f:
+            rec = json.load(f)
+        modname, fname = rec["harness"].rsplit(".", 1)
+    else:
+        modname, fname, path = argv[1:4]
+        with open(path) as f:
+            rec = json.load(f)
     out = run(modname, fname, rec["model"])
     print(json.dumps(out, default=repr))
     if out["verdict"] == "confirmed":
@@ -549,10 +557,10 @@ class GenVC(NativeVC):
         self.model[name] = v
         return v
 
-    def drive(self, coro, log, on_sleep=None, cancellable=False):
+    def drive(self, coro, log, on_sleep=None, cancellable=False, on_cancel=None):
         if cancellable and "cancel_at" not in self.model:
             self.model["cancel_at"] = self.rng.choice([0, 1, 2, 3, 4, 5, 6, 7])
-        return NativeVC.drive(self, coro, log, on_sleep, cancellable)
+        return NativeVC.drive(self, coro, log, on_sleep, cancellable, on_cancel)
 
     def int(self, name, lo=None, hi=None):
         r = self.rng
